@@ -36,8 +36,11 @@ import Nstd.Callback.LemmasAudit
   OPEN: EMITTER address reuse in general.  `Sim` is NOT kept by constructing an emitter at a destroyed id while activations of the
   old emitter are still on the stack (`FInv.act`: `data.activation = topOf frames (e, g)` would see the old, invalidated
   frames), and the specification identifies an emission in progress by (e, g): its `finish` would decrement the depth of the
-  new emitter's signal.  Needed: frames / emissions keyed by a generation of the emitter id, or a relation that ignores
-  invalidated frames.  What protects the code is the `invalidated` flag: an invalidated activation reads neither its emitter
+  new emitter's signal.  Needed: the relation between the run with emitter reuse and the run without: emitter records equal along `emId`,
+  listener lists read through `emId`, the key lists of the listeners' maps as sets of keys with non-empty lists (`~Listener` then
+  visits them in another order: `dtor_listener_order_irrelevant`; a key list without duplicates), frames `FramesSim` (below) up
+  to the variable of the emitter; nine preservation lemmas and the lifting through the evaluator (as `execRL_spec`).  Proved
+  towards it: `sim_reviveE`, `next_frames_sim`, `actEnd_frames_sim`, `invalidate_frames_sim`.  What protects the code is the `invalidated` flag: an invalidated activation reads neither its emitter
   nor its data (`actEnd`, `next`).
   Tested on every run for both kinds of reuse: the driver executes `execR` beside `exec` on every op line of the
   correspondence run and flags `REUSEDIFF` when log or bookkeeping differ; the real code runs every program that re-creates
@@ -436,5 +439,129 @@ theorem sim_reviveE {m : State} {s : SState} {K : MStack} (e : Nat) (h : Sim m s
 /-- non-vacuity: an emitter destroyed at top level (no activation on the stack) and re-created at its id -/
 example : Sim (reviveE 0 (delEmitter 0 State.fresh)) (Spec.reviveE 0 (Spec.delE 0 SState.fresh)) [] :=
   sim_reviveE 0 (sim_delE 0 sim_init rfl) (by simp [delEmitter, State.fresh, State.setEmitter]) (by intro f hf; simp [delEmitter, State.fresh, State.setEmitter] at hf)
+
+/-! ### emitter address reuse: no function of the model reads the `data` of an invalidated activation
+
+  (`stale_frame_data_never_read`.)  When an emitter is destroyed inside one of its own emissions its activations stay on the
+  stack, invalidated, with `data` pointing into the destroyed object; a new emitter at the same address makes those pointers
+  name the new object.  The three functions of the model that look at frames — the loop of `emit` (`next`), `~SignalActivation`
+  (`actEnd`) and the invalidation by `~Emitter` / `~SignalActivation` — behave the same on frame stacks that differ only in the
+  `data` of invalidated frames, and keep that relation. -/
+
+/-- two activation frames that differ at most in the `data` pointer of an INVALIDATED activation -/
+def Frame.sim (f f' : Frame) : Prop :=
+  f.next = f'.next ∧ f.invalidated = f'.invalidated ∧ (f.invalidated = false → f.data = f'.data)
+
+inductive FramesSim : List Frame → List Frame → Prop where
+  | nil : FramesSim [] []
+  | cons {f f' : Frame} {fs fs' : List Frame} (h : f.sim f') (t : FramesSim fs fs') : FramesSim (f :: fs) (f' :: fs')
+
+theorem FramesSim.length {fs fs' : List Frame} (h : FramesSim fs fs') : fs.length = fs'.length := by
+  induction h with
+  | nil => rfl
+  | cons _ _ ih => simp [ih]
+
+theorem FramesSim.refl (fs : List Frame) : FramesSim fs fs := by
+  induction fs with
+  | nil => exact .nil
+  | cons f fs ih => exact .cons ⟨rfl, rfl, fun _ => rfl⟩ ih
+
+theorem frameAt_sim {fs fs' : List Frame} (h : FramesSim fs fs') (i : Nat) :
+    (frameAt fs i = none ∧ frameAt fs' i = none) ∨ ∃ f f', frameAt fs i = some f ∧ frameAt fs' i = some f' ∧ f.sim f' := by
+  induction h with
+  | nil => exact Or.inl ⟨rfl, rfl⟩
+  | @cons f f' fs fs' hf t ih =>
+    simp only [frameAt, ← t.length]
+    by_cases hi : i = fs.length
+    · simp only [hi, if_true]; exact Or.inr ⟨f, f', rfl, rfl, hf⟩
+    · simp only [hi, if_false]; exact ih
+
+theorem setInvalid_sim {fs fs' : List Frame} (h : FramesSim fs fs') (i : Nat) : FramesSim (setInvalid fs i) (setInvalid fs' i) := by
+  induction h with
+  | nil => exact .nil
+  | @cons f f' fs fs' hf t ih =>
+    simp only [setInvalid, ← t.length]
+    by_cases hi : i = fs.length
+    · simp only [hi, if_true]
+      exact .cons ⟨hf.1, rfl, fun hh => by simp at hh⟩ t
+    · simp only [hi, if_false]; exact .cons hf ih
+
+theorem popTo_sim {fs fs' : List Frame} (h : FramesSim fs fs') (i : Nat) : FramesSim (popTo fs i) (popTo fs' i) := by
+  induction h with
+  | nil => exact .nil
+  | @cons f f' fs fs' hf t ih =>
+    simp only [popTo, ← t.length]
+    by_cases hi : fs.length < i
+    · simp only [hi, if_true]; exact .cons hf t
+    · simp only [hi, if_false]; exact ih
+
+/-- the state with another frame stack -/
+def State.withFrames (st : State) (fs : List Frame) : State := { st with frames := fs }
+
+/-- **The loop of `emit` does not read the `data` of an invalidated activation**: with frame stacks that differ only there, `next`
+    gives the same answer. -/
+theorem next_frames_sim (st : State) (fs' : List Frame) (h : FramesSim st.frames fs') (fid : Nat) (pos : Option Nat) :
+    next (st.withFrames fs') fid pos = next st fid pos := by
+  unfold next
+  show (match frameAt fs' fid with | none => _ | some f => _) = _
+  rcases frameAt_sim h fid with ⟨h1, h2⟩ | ⟨f, f', h1, h2, hs⟩
+  · rw [h1, h2]
+  · rw [h1, h2]
+    simp only
+    rw [← hs.2.1]
+    cases hi : f.invalidated with
+    | true => simp
+    | false =>
+      simp only [Bool.false_eq_true, if_false]
+      rw [← hs.2.2 hi]
+      rfl
+
+theorem invalidate_frames_sim (st : State) (fs' : List Frame) (h : FramesSim st.frames fs') (i : Nat) :
+    ∃ gs, invalidate (st.withFrames fs') i = (invalidate st i).withFrames gs ∧ FramesSim (invalidate st i).frames gs := by
+  unfold invalidate
+  simp only [State.withFrames]
+  rcases frameAt_sim h i with ⟨h1, h2⟩ | ⟨f, f', h1, h2, hs⟩
+  · rw [h1, h2]; exact ⟨fs', rfl, h⟩
+  · rw [h1, h2]; exact ⟨setInvalid fs' i, rfl, setInvalid_sim h i⟩
+
+/-- **`~SignalActivation` does not read the `data` of an invalidated activation** (it hands the flag to `next` and is done): on
+    frame stacks that differ only there it does the same to everything else and leaves stacks that differ only there. -/
+theorem actEnd_frames_sim (st : State) (fs' : List Frame) (h : FramesSim st.frames fs') (fid : Nat) :
+    ∃ gs, actEnd fid (st.withFrames fs') = (actEnd fid st).withFrames gs ∧ FramesSim (actEnd fid st).frames gs := by
+  unfold actEnd
+  simp only [State.withFrames]
+  rcases frameAt_sim h fid with ⟨h1, h2⟩ | ⟨f, f', h1, h2, hs⟩
+  · rw [h1, h2]; exact ⟨fs', rfl, h⟩
+  · rw [h1, h2]
+    simp only
+    have hp := popTo_sim h fid
+    rw [← hs.2.1, ← hs.1]
+    cases hi : f.invalidated with
+    | false =>
+      simp only [Bool.not_false, if_true]
+      rw [← hs.2.2 hi]
+      refine ⟨popTo fs' fid, ?_, ?_⟩
+      · cases st.emitters f.data.1 with
+        | none => rfl
+        | some em =>
+          simp only
+          cases em.sig f.data.2 <;> rfl
+      · cases st.emitters f.data.1 with
+        | none => exact hp
+        | some em =>
+          simp only
+          cases em.sig f.data.2 <;> exact hp
+    | true =>
+      simp only [Bool.not_true, Bool.false_eq_true, if_false]
+      cases hn : f.next with
+      | none => exact ⟨popTo fs' fid, rfl, hp⟩
+      | some n =>
+        simp only
+        exact invalidate_frames_sim { st with frames := popTo st.frames fid } (popTo fs' fid) hp n
+
+/-- non-vacuity: an invalidated frame of a destroyed emitter (data (7, 0)) and the same frame naming the new object at that
+    address (data (0, 0)) -/
+example : FramesSim [{ next := none, invalidated := true, data := (7, 0) }] [{ next := none, invalidated := true, data := (0, 0) }] :=
+  .cons ⟨rfl, rfl, fun h => by simp at h⟩ .nil
 
 end Nstd.Callback
